@@ -44,6 +44,11 @@ type Scenario struct {
 	Plan    []faultsys.Trigger `json:"plan"`
 	Trace   bool               `json:"trace,omitempty"` // fault-free run that reports the RPC counts
 	Par     int                `json:"par,omitempty"`   // session parallelism (default 4; 1 = a cluster of a single machine)
+	// Second: "scan" = a second scanner reads the first run's Result to its end between the moment the
+	// serving machine of the first scan dies and the first scan's reader reopens its stream (the retry
+	// back-off of the readers is 4 s in these scenarios): the shard is recomputed by somebody else
+	Second string `json:"second,omitempty"`
+	Rep    int    `json:"rep,omitempty"` // ordinal among identical scenarios
 	Repeat  int                `json:"repeat,omitempty"` // replays only: run the scenario this many times (outcomes that depend on the order in which a recomputed shuffle delivers its rows)
 }
 
@@ -65,6 +70,9 @@ func (s Scenario) String() string {
 	name := s.Program
 	if s.Par != 0 {
 		name += fmt.Sprintf("@par%d", s.Par)
+	}
+	if s.Second != "" {
+		name += fmt.Sprintf("+second-%s.%d", s.Second, s.Rep)
 	}
 	return name + "[" + strings.Join(p, ",") + "]"
 }
@@ -215,7 +223,11 @@ func runScenario(sc Scenario) (out Outcome) {
 	start := time.Now()
 	defer func() { out.Millis = time.Since(start).Milliseconds() }()
 	exec.ProbationTimeout = 300 * time.Millisecond
-	exec.VerifSetRetryPolicy(retry.MaxRetries(retry.Backoff(5*time.Millisecond, 50*time.Millisecond, 2), 5))
+	fastRetry := retry.MaxRetries(retry.Backoff(5*time.Millisecond, 50*time.Millisecond, 2), 5)
+	exec.VerifSetRetryPolicy(fastRetry)
+	if sc.Second != "" {
+		exec.VerifSetRetryPolicy(retry.MaxRetries(retry.Backoff(4*time.Second, 4*time.Second, 1), 5))
+	}
 	sys := faultsys.New(2)
 	sys.KeepalivePeriod = 100 * time.Millisecond
 	sys.KeepaliveTimeout = time.Second
@@ -253,6 +265,7 @@ func runScenario(sc Scenario) (out Outcome) {
 	want := ref.Stages[main.Root()]
 	schema := main.Nodes[main.Root()].Schema
 	var firstRes *exec.Result
+	stopSecond := make(chan struct{})
 	attempt := func() (runErr, scanErr, diff string, hang bool) {
 		spec := *main
 		spec.RunID = runner.NewRunID()
@@ -263,10 +276,45 @@ func runScenario(sc Scenario) (out Outcome) {
 				runErr = e.Error()
 				return
 			}
+			var second chan string
 			if firstRes == nil {
 				firstRes = res
+				if sc.Second == "scan" {
+					second = make(chan string, 1)
+					go func() {
+						// wait for the kill, then until the driver has noticed the loss (keepalive timeout 1 s)
+						for sys.Fired() == 0 {
+							select {
+							case <-stopSecond:
+								second <- ""
+								return
+							case <-time.After(20 * time.Millisecond):
+							}
+						}
+						time.Sleep(2200 * time.Millisecond)
+						rows2, e2 := runner.Scan(ctx, res, schema)
+						if e2 != nil {
+							second <- ""
+							return
+						}
+						if d := progen.CheckRows(want, rows2); d != nil {
+							second <- "second scanner: " + d.Error()
+							return
+						}
+						second <- ""
+					}()
+				}
 			}
 			rows, e := runner.Scan(ctx, res, schema)
+			if second != nil {
+				close(stopSecond)
+				d2 := <-second
+				exec.VerifSetRetryPolicy(fastRetry)
+				if d2 != "" {
+					diff = d2
+					return
+				}
+			}
 			if e != nil {
 				scanErr = e.Error()
 				return
@@ -512,6 +560,9 @@ func report(t *testing.T, rec *vt.Rec, test string, seen map[string]bool) func(i
 		v, sig := judge(sc, out, crashed, log)
 		nt := out.Fired > 0 || crashed
 		classes := []string{"program:" + sc.Program}
+		if sc.Second != "" {
+			classes = append(classes, "second-scanner-during-reopen")
+		}
 		for _, tr := range sc.Plan {
 			classes = append(classes, "kill-at:"+tr.Method)
 		}
@@ -701,6 +752,25 @@ func TestVerifC02SingleKill(t *testing.T) {
 			k++
 			if vt.Mine(k) {
 				mine = append(mine, sc)
+			}
+		}
+	}
+	// a second scanner recomputes the shard while the first scan's reader waits to reopen its stream
+	for _, p := range []string{"reshard", "reshuffle-root", "big-reshuffle"} {
+		n := counts[variant{p, 0}]["Worker.Read"]
+		reps := 3
+		if vt.Thorough() {
+			reps = 10
+		}
+		for ord := n - 3; ord < n; ord++ {
+			if ord < 0 {
+				continue
+			}
+			for r := 0; r < reps; r++ {
+				k++
+				if vt.Mine(k) {
+					mine = append(mine, Scenario{Program: p, Second: "scan", Rep: r, Plan: []faultsys.Trigger{{Method: "Worker.Read", N: ord, Phase: "mid", Victim: "target", CutAfter: 100}}})
+				}
 			}
 		}
 	}
